@@ -11,7 +11,8 @@ RULE = ("references (pooled or flat, +- gc / rmask columns, bad bins anywhere: l
         "outside 0.3-0.7) over 1..4 chromosomes with interleaved target (100-400 bp) and antitarget (5-20 kb) bins; "
         "samples over all or ~90% of the bins, empty antitargets, every subset of {gc, edge, rmask}, sample rows in "
         "genomic or shuffled order, plus malformed inputs (bin missing from the reference, duplicated coordinates); "
-        "each case is also re-run with permuted input rows and with a depth scale factor. non-trivial = a bad bin "
+        "each case is also re-run with permuted input rows and with a depth scale factor; one case in five goes through the "
+        "command line (`cnvkit.py fix` on written .cnn files, --no-gc/--no-edge/--no-rmask), result read back from the .cnr. non-trivial = a bad bin "
         "was dropped or a correction was applied or rows were shuffled; distinct by hash")
 EXHAUSTIVE = {"quick": False, "thorough": False}
 ASSUMPTIONS = ["third-party numerics enter as parameters computed by the same library calls: numpy's seeded permutation "
@@ -75,9 +76,16 @@ def _case(rng, big=False):
     elif k < 0.10 and len(ref) > 1:
         bad = "dup_ref"
         ref = ref + [list(ref[0])]
-    return {"op": "fix", "tag": ("shuffled-" if shuffled else "sorted-") + ("flat" if flat else "pooled") + ("-" + bad if bad else ""),
+    cli = rng.random() < 0.2
+    if cli:
+        # the .cnn files carry 6 significant digits: use inputs that survive the round trip exactly
+        r6 = lambda v: v if v is None else float("%.6g" % v)
+        ref = [r[:4] + [r6(v) for v in r[4:]] for r in ref]
+        tgt = [r[:4] + [r6(v) for v in r[4:]] for r in tgt]
+        anti = [r[:4] + [r6(v) for v in r[4:]] for r in anti]
+    return {"op": "fix", "tag": ("cli-" if cli else "") + ("shuffled-" if shuffled else "sorted-") + ("flat" if flat else "pooled") + ("-" + bad if bad else ""),
             "in": {"tgt_f": tgt, "anti_f": anti, "ref_f": ref, "do_gc": corr[0], "do_edge": corr[1], "do_rmask": corr[2],
-                   "par": None, "shuffled": shuffled, "scale": rng.choice([1.0, 2.0, -3.5, 0.37]), "pseed": rng.randint(0, 10 ** 6)}}
+                   "par": None, "shuffled": shuffled, "scale": rng.choice([1.0, 2.0, -3.5, 0.37]), "pseed": rng.randint(0, 10 ** 6), "cli": cli}}
 
 
 def gen_cases(rng, tier):
@@ -94,7 +102,7 @@ def corpus():
     # finding D: shuffled sample, empty antitargets, a correction on
     c["in"]["anti_f"] = []
     rng.shuffle(c["in"]["tgt_f"])
-    c["in"].update(do_gc=False, do_edge=True, do_rmask=False, shuffled=True)
+    c["in"].update(do_gc=False, do_edge=True, do_rmask=False, shuffled=True, cli=False)
     c["tag"] = "corpus-D"
     return [c]
 
@@ -113,8 +121,65 @@ def _ref(rows):
     return ref
 
 
+def _fix_cli(i, tgt, anti, ref):
+    """the same computation through the command line: write the three tables, run `cnvkit.py fix`, read the .cnr"""
+    import os
+    import shutil
+    import tempfile
+    import logging
+    from cnvlib import commands
+    from cnvlib.cmdutil import read_cna
+    from skgenome import tabio
+    d = tempfile.mkdtemp(prefix="c04cli", dir="/var/tmp")
+    try:
+        ft, fa, fr, fo = (os.path.join(d, n) for n in ("s.targetcoverage.cnn", "s.antitargetcoverage.cnn", "ref.cnn", "s.cnr"))
+        tabio.write(_cna(tgt, SC), ft)
+        tabio.write(_cna(anti, SC), fa)
+        tabio.write(_ref(ref), fr)
+        argv = ["fix", ft, fa, fr, "-o", fo]
+        argv += [] if i["do_gc"] else ["--no-gc"]
+        argv += [] if i["do_edge"] else ["--no-edge"]
+        argv += [] if i["do_rmask"] else ["--no-rmask"]
+        # the .cnr is written with 6 significant digits (C08's subject): take the table the command hands to the
+        # writer, and check separately that the file read back agrees with it to that precision
+        captured = []
+
+        class _Tab:
+            def __getattr__(self, name):
+                return getattr(tabio, name)
+
+            def write(self, garr, outfname=None, *a, **k):
+                captured.append(garr)
+                return tabio.write(garr, outfname, *a, **k)
+        saved = commands.tabio
+        commands.tabio = _Tab()
+        logging.disable(logging.CRITICAL)
+        try:
+            args = commands.parse_args(argv)
+            args.func(args)
+        finally:
+            logging.disable(logging.NOTSET)
+            commands.tabio = saved
+        if len(captured) != 1 or not os.path.exists(fo):
+            raise AssertionError("cnvkit.py fix did not write exactly one table to the requested output")
+        back = read_cna(fo)
+        out = captured[0]
+        if len(back) != len(out) or any(
+                (str(a.chromosome), int(a.start), int(a.end), str(a.gene)) != (str(b.chromosome), int(b.start), int(b.end), str(b.gene))
+                or abs(a.log2 - b.log2) > 1e-5 * max(1, abs(b.log2)) for a, b in zip(back, out) if b.log2 == b.log2):
+            raise AssertionError("the written .cnr does not read back as the table fix computed")
+        return out
+    finally:
+        shutil.rmtree(d, ignore_errors=True)
+
+
 def _run(i, tgt, anti, ref, record=None):
     from cnvlib import fix, descriptives
+    if i.get("cli"):
+        do = lambda: _fix_cli(i, tgt, anti, ref)
+    else:
+        do = lambda: fix.do_fix(_cna(tgt, SC), _cna(anti, SC), _ref(ref), do_gc=i["do_gc"], do_edge=i["do_edge"],
+                                do_rmask=i["do_rmask"])
     if record is not None:
         # the two residual spreads are third-party numerics (biweight midvariance, C19): capture the values
         # apply_weights actually obtains (the estimator switches to a MAD fallback on exactly symmetric data,
@@ -132,13 +197,11 @@ def _run(i, tgt, anti, ref, record=None):
         saved = fix.descriptives
         fix.descriptives = _Rec()
         try:
-            out = fix.do_fix(_cna(tgt, SC), _cna(anti, SC), _ref(ref), do_gc=i["do_gc"], do_edge=i["do_edge"],
-                             do_rmask=i["do_rmask"])
+            out = do()
         finally:
             fix.descriptives = saved
     else:
-        out = fix.do_fix(_cna(tgt, SC), _cna(anti, SC), _ref(ref), do_gc=i["do_gc"], do_edge=i["do_edge"],
-                         do_rmask=i["do_rmask"])
+        out = do()
     d = out.data
     return out, [[str(d["chromosome"].iat[k]), int(d["start"].iat[k]), int(d["end"].iat[k]), str(d["gene"].iat[k]),
                   float(d["log2"].iat[k]), float(d["weight"].iat[k])] for k in range(len(d))]
@@ -191,7 +254,8 @@ def run_impl(case):
     prng = random.Random(i["pseed"])
     t2, a2, r2 = list(i["tgt_f"]), list(i["anti_f"]), list(i["ref_f"])
     prng.shuffle(t2), prng.shuffle(a2), prng.shuffle(r2)
-    _o, rows_p = _run(i, t2, a2, r2)
+    ia = dict(i, cli=False)  # metamorphic re-runs go through the API (the files carry only 6 significant digits)
+    _o, rows_p = _run(ia, t2, a2, r2)
     res["perm_same"] = _same(rows, rows_p)
     c = i["scale"]
 
@@ -203,14 +267,14 @@ def run_impl(case):
     res["scale_same"] = True
     if len(t0) >= 2:
         try:
-            _o, rows_0 = _run(i, t0, a0, i["ref_f"])
-            _o, rows_s0 = _run(i, scaled(t0), scaled(a0), i["ref_f"])
+            _o, rows_0 = _run(ia, t0, a0, i["ref_f"])
+            _o, rows_s0 = _run(ia, scaled(t0), scaled(a0), i["ref_f"])
             res["scale_same"] = _same(rows_0, rows_s0)
         except ValueError as e:
             if "width must be" not in str(e):
                 raise
     # (b) faithful rescale with the zero-coverage bins left at the sentinel (they have no reads to scale)
-    _o, rows_s = _run(i, scaled(i["tgt_f"]), scaled(i["anti_f"]), i["ref_f"])
+    _o, rows_s = _run(ia, scaled(i["tgt_f"]), scaled(i["anti_f"]), i["ref_f"])
     null = {(r[0], r[1], r[2]) for r in i["tgt_f"] + i["anti_f"] if r[5] == 0}
     res["scale_same_null"] = _same([r for r in rows if tuple(r[:3]) not in null],
                                    [r for r in rows_s if tuple(r[:3]) not in null])
